@@ -78,22 +78,32 @@ Proof.
 Qed.
 
 (* ------------------------------------------------------ one parameter of the writer's list *)
+(* all statements below are for a reader whose alignment origin is 0 (a top-level object) *)
 Lemma enc_align4_aligned : forall s, s mod 4 = 0 -> enc_align V2 4 s = [].
 Proof. intros. unfold enc_align. cbn [maxalign]. rewrite padlen_zero by (cbn; lia). reflexivity. Qed.
 
 Lemma wrap_u16_small : forall z, 0 <= z < 65536 -> wrap_u16 z = z.
 Proof. intros. unfold wrap_u16. apply Z.mod_small. lia. Qed.
 
-(* reading a u32 that sits, 4-aligned, at offset |pre| *)
-Lemma des_u32_at : forall E pre z post, blen pre mod 4 = 0 -> 0 <= z <= u32_max ->
-  des_prim V2 E (pre ++ int_enc E 4 z ++ post) KU32 (blen pre) = DOk z (blen pre + 4).
+Lemma land_id28 : forall id, 0 <= id < 268435456 -> Z.land id 268435455 = id.
 Proof.
-  intros E pre z post Hal Hz. pose proof (blen_nonneg pre).
-  destruct (rt_u32 V2 E z Hz (blen pre) ltac:(lia)) as [hb [E2 D2]].
+  intros. change 268435455 with (Z.ones 28). rewrite Z.land_ones by lia.
+  change (2 ^ 28) with 268435456. apply Z.mod_small. lia.
+Qed.
+
+(* reading a u32 that sits, 4-aligned, at offset |pre| *)
+Lemma des_u32_at : forall E pre z post c, c_org c = 0 -> blen pre mod 4 = 0 -> blen pre + 4 <= c_lim c ->
+  0 <= z <= u32_max ->
+  des_prim V2 E (pre ++ int_enc E 4 z ++ post) c KU32 (blen pre) = DOk z (blen pre + 4).
+Proof.
+  intros E pre z post c Horg Hal Hlim Hz. pose proof (blen_nonneg pre).
+  destruct (rt_u32 V2 E 4 z Hz (blen pre) ltac:(lia)) as [hb [E2 [_ D2]]].
   assert (Hhb : hb = int_enc E 4 z).
   { unfold ser_prim, ret in E2. change (sk_size KU32) with 4 in E2.
     rewrite enc_align4_aligned in E2 by assumption. inversion E2. reflexivity. }
-  subst hb. rewrite (D2 pre post eq_refl). rewrite int_enc_blen. reflexivity.
+  subst hb. rewrite int_enc_blen in D2.
+  specialize (D2 ltac:(lia) pre post c ltac:(lia) ltac:(lia)).
+  rewrite Horg in D2. exact D2.
 Qed.
 
 Lemma len_sel : forall lc (X : dres Z) s, 0 <= lc <= 3 ->
@@ -107,20 +117,20 @@ Qed.
 
 Lemma mm2_step : forall E ms d mt v,
   nodup_z (ids ms) = true -> In mt ms -> lookup (m_id (fst mt)) d = Some v ->
-  rt_ok (ser_ty V2 E (snd mt) v) (fun buf => des_ty V2 E buf (snd mt)) v ->
+  rt_ok u32_max (msz (snd mt)) (ser_ty V2 E (snd mt) v) (fun buf c => des_ty V2 E buf (snd mt) c) v ->
   shift4 (ser_ty V2 E (snd mt) v) ->
-  lc5_ty (snd mt) = false -> 0 <= m_id (fst mt) < 65536 ->
+  lc5_ty (snd mt) = false -> 0 <= m_id (fst mt) < 268435456 ->
   (forall pos bs p, ser_ty V2 E (snd mt) v pos = Ok (bs, p) -> blen bs <= u32_max) ->
   forall pos, 0 <= pos -> exists bs off,
     ser_mmember2 V2 E (cvS V2 E ms) d (m_id (fst mt)) pos = Ok (bs, pos + blen bs) /\
     4 <= off <= blen bs /\ (pos + off) mod 4 = 0 /\
-    forall pre post, blen pre = pos ->
-      des_ty V2 E (pre ++ bs ++ post) (snd mt) (pos + off) = DOk v (pos + blen bs) /\
-      forall f pid, 0 <= pid < 65536 ->
-        seek_to_pid2 V2 E (pre ++ bs ++ post) (S f) pid pos =
+    forall pre post c, c_org c = 0 -> blen pre = pos -> pos + blen bs <= c_lim c ->
+      des_ty V2 E (pre ++ bs ++ post) (snd mt) c (pos + off) = DOk v (pos + blen bs) /\
+      forall f pid, 0 <= pid < 268435456 ->
+        seek_to_pid2 V2 E (pre ++ bs ++ post) c (S f) pid pos =
         if m_id (fst mt) =? pid then DOk (wrap_u16 (blen bs - off)) (pos + off)
-        else dbind (dec_align V2 (pre ++ bs ++ post) 4 (pos + blen bs))
-                   (fun _ p4 => seek_to_pid2 V2 E (pre ++ bs ++ post) f pid p4).
+        else dbind (dec_align V2 c 4 (pos + blen bs))
+                   (fun _ p4 => seek_to_pid2 V2 E (pre ++ bs ++ post) c f pid p4).
 Proof.
   intros E ms d [m t] v Hnd Hin Hv Hrt Hsh Hlc5 Hid Hsz pos Hpos. cbn [fst snd] in *.
   set (pad := enc_align V2 4 pos).
@@ -132,12 +142,21 @@ Proof.
   set (s := pos + blen pad + 4).
   assert (Hs0 : 0 <= s) by (unfold s; lia).
   assert (Hs4 : s mod 4 = 0) by (unfold s; rewrite Hpadlen; lia).
-  destruct (Hrt s Hs0) as [body [Eb Db]].
+  destruct (Hrt s Hs0) as [body [Eb [_ Db]]].
   pose proof (Hsz _ _ _ Eb) as Hbody. pose proof (blen_nonneg body) as Hbnn.
   assert (Eb4 : ser_ty V2 E t v (s + 4) = Ok (body, s + 4 + blen body)).
   { rewrite (Hsh _ _ _ Eb). f_equal. f_equal. lia. }
-  destruct (Hrt (s + 4) ltac:(lia)) as [body' [Eb' Db']]. rewrite Eb4 in Eb'.
+  destruct (Hrt (s + 4) ltac:(lia)) as [body' [Eb' [_ Db']]]. rewrite Eb4 in Eb'.
   inversion Eb' as [[Hbb Hpp]]. subst body'. clear Eb' Hpp.
+  (* decoding the value at an absolute position (origin 0) *)
+  assert (Dv : forall pre post c, c_org c = 0 -> blen pre = s -> s + blen body <= c_lim c ->
+             des_ty V2 E (pre ++ body ++ post) t c s = DOk v (s + blen body)).
+  { intros pre post c Horg Hpre Hlim.
+    pose proof (Db Hbody pre post c ltac:(lia) ltac:(lia)) as H. now rewrite Horg in H. }
+  assert (Dv4 : forall pre post c, c_org c = 0 -> blen pre = s + 4 -> s + 4 + blen body <= c_lim c ->
+             des_ty V2 E (pre ++ body ++ post) t c (s + 4) = DOk v (s + 4 + blen body)).
+  { intros pre post c Horg Hpre Hlim.
+    pose proof (Db' Hbody pre post c ltac:(lia) ltac:(lia)) as H. now rewrite Horg in H. }
   (* the serializer *)
   assert (Hfind : find_m (m_id m) (cvS V2 E ms) = Some (m, (t, ser_ty V2 E t)))
     by (exact (find_cvS V2 E ms (m, t) Hnd Hin)).
@@ -160,15 +179,17 @@ Proof.
   { unfold ser_mmember2. cbv zeta. fold pad. fold s. rewrite Hsv. cbn [unwrap bind].
     rewrite Hfind. rewrite Hlc5. rewrite Hw. fold lc. fold mu. fold emh. reflexivity. }
   (* the reader: EMHEADER at pos + |pad| *)
-  assert (Hdes_emh : forall pre rest, blen pre = pos ->
-            des_prim V2 E (pre ++ (pad ++ int_enc E 4 emh ++ rest)) KU32 pos = DOk emh s).
-  { intros pre rest Hpre.
-    destruct (rt_u32 V2 E emh Hemh pos Hpos) as [hb [E2 D2]].
+  assert (Hdes_emh : forall pre rest c, c_org c = 0 -> blen pre = pos -> s <= c_lim c ->
+            des_prim V2 E (pre ++ (pad ++ int_enc E 4 emh ++ rest)) c KU32 pos = DOk emh s).
+  { intros pre rest c Horg Hpre Hlim.
+    destruct (rt_u32 V2 E 8 emh Hemh pos Hpos) as [hb [E2 [_ D2]]].
     assert (Hhb : hb = pad ++ int_enc E 4 emh) by (unfold ser_prim, ret in E2; inversion E2; reflexivity).
     subst hb.
     replace (pre ++ pad ++ int_enc E 4 emh ++ rest) with (pre ++ (pad ++ int_enc E 4 emh) ++ rest)
       by now rewrite <- !app_assoc.
-    rewrite (D2 pre rest Hpre). rewrite blen_app, int_enc_blen. f_equal. unfold s. lia. }
+    rewrite blen_app, int_enc_blen in D2.
+    specialize (D2 ltac:(lia) pre rest c ltac:(lia) ltac:(unfold s in Hlim; lia)).
+    rewrite Horg in D2. cbn [Z.add] in D2. rewrite D2. f_equal. unfold s. lia. }
   destruct (Z.eqb_spec lc 4) as [Hlc4 | Hlc4].
   - (* NEXTINT present *)
     exists (pad ++ int_enc E 4 emh ++ int_enc E 4 (blen body) ++ body), (blen pad + 8).
@@ -176,7 +197,7 @@ Proof.
     { rewrite !blen_app, !int_enc_blen. lia. }
     rewrite Hlen. split; [rewrite Hser; f_equal; f_equal; unfold s; lia|].
     split; [lia|]. split; [rewrite Hpadlen; lia|].
-    intros pre post Hpre.
+    intros pre post c Horg Hpre Hlim.
     set (buf := pre ++ (pad ++ int_enc E 4 emh ++ int_enc E 4 (blen body) ++ body) ++ post).
     assert (Hbuf1 : buf = (pre ++ pad ++ int_enc E 4 emh ++ int_enc E 4 (blen body)) ++ body ++ post)
       by (unfold buf; now rewrite <- !app_assoc).
@@ -185,38 +206,37 @@ Proof.
     split.
     + replace (pos + (blen pad + 8)) with (s + 4) by (unfold s; lia).
       replace (pos + (blen pad + 8 + blen body)) with (s + 4 + blen body) by (unfold s; lia).
-      rewrite Hbuf1. apply Db'. exact Hl1.
+      rewrite Hbuf1. apply Dv4; [exact Horg|exact Hl1|unfold s; lia].
     + intros f pid Hpid. cbn [seek_to_pid2].
       assert (Hbuf0 : buf = pre ++ (pad ++ int_enc E 4 emh ++ (int_enc E 4 (blen body) ++ body ++ post)))
         by (unfold buf; now rewrite <- !app_assoc).
-      rewrite Hbuf0 at 1. rewrite (Hdes_emh pre _ Hpre). cbn [dbind].
+      rewrite Hbuf0 at 1. rewrite (Hdes_emh pre _ c Horg Hpre ltac:(unfold s; lia)). cbn [dbind].
       rewrite Hcur, Hlcd, Hlc4. cbn [Z.eqb Pos.eqb].
       assert (Hbuf2 : buf = (pre ++ pad ++ int_enc E 4 emh) ++ int_enc E 4 (blen body) ++ (body ++ post))
         by (unfold buf; now rewrite <- !app_assoc).
       assert (Hl2 : blen (pre ++ pad ++ int_enc E 4 emh) = s)
         by (rewrite !blen_app, !int_enc_blen; unfold s; lia).
-      assert (Hnext : des_prim V2 E buf KU32 s = DOk (blen body) (s + 4)).
-      { rewrite Hbuf2. rewrite <- Hl2. apply des_u32_at; [rewrite Hl2; exact Hs4|lia]. }
+      assert (Hnext : des_prim V2 E buf c KU32 s = DOk (blen body) (s + 4)).
+      { rewrite Hbuf2. rewrite <- Hl2.
+        apply des_u32_at; [exact Horg|rewrite Hl2; exact Hs4|rewrite Hl2; unfold s; lia|lia]. }
       rewrite Hnext. cbn [dbind].
       replace (1 * blen body >? u32_max) with false by (symmetry; apply gtb_false; lia).
-      cbn [dbind]. rewrite wrap_u16_small by lia.
+      cbn [dbind].
       replace (1 * blen body) with (blen body) by lia.
       replace (pos + (blen pad + 8)) with (s + 4) by (unfold s; lia).
       replace (blen pad + 8 + blen body - (blen pad + 8)) with (blen body) by lia.
       destruct (m_id m =? pid); [reflexivity|].
-      assert (Hseek : seek buf (s + 4) (blen body) = DOk tt (s + 4 + blen body)).
-      { rewrite Hbuf1. rewrite <- Hl1. apply seek_mid. lia. }
-      rewrite Hseek. cbn [dbind].
+      rewrite seek_ok by (unfold s; lia). cbn [dbind].
       replace (pos + (blen pad + 8 + blen body)) with (s + 4 + blen body) by (unfold s; lia).
       reflexivity.
   - (* length code 0..3 *)
     exists (pad ++ int_enc E 4 emh ++ body), (blen pad + 4).
     assert (Hlen : blen (pad ++ int_enc E 4 emh ++ body) = blen pad + 4 + blen body).
     { rewrite !blen_app, !int_enc_blen. lia. }
-    rewrite Hlen. apply Z.eqb_neq in Hlc4 as Hlc4b.
+    rewrite Hlen.
     split; [rewrite Hser; f_equal; f_equal; unfold s; lia|].
     split; [lia|]. split; [rewrite Hpadlen; lia|].
-    intros pre post Hpre.
+    intros pre post c Horg Hpre Hlim.
     set (buf := pre ++ (pad ++ int_enc E 4 emh ++ body) ++ post).
     assert (Hbuf1 : buf = (pre ++ pad ++ int_enc E 4 emh) ++ body ++ post)
       by (unfold buf; now rewrite <- !app_assoc).
@@ -225,11 +245,11 @@ Proof.
     split.
     + replace (pos + (blen pad + 4)) with s by (unfold s; lia).
       replace (pos + (blen pad + 4 + blen body)) with (s + blen body) by (unfold s; lia).
-      rewrite Hbuf1. apply Db. exact Hl1.
+      rewrite Hbuf1. apply Dv; [exact Horg|exact Hl1|unfold s; lia].
     + intros f pid Hpid. cbn [seek_to_pid2].
       assert (Hbuf0 : buf = pre ++ (pad ++ int_enc E 4 emh ++ (body ++ post)))
         by (unfold buf; now rewrite <- !app_assoc).
-      rewrite Hbuf0 at 1. rewrite (Hdes_emh pre _ Hpre). cbn [dbind].
+      rewrite Hbuf0 at 1. rewrite (Hdes_emh pre _ c Horg Hpre ltac:(unfold s; lia)). cbn [dbind].
       rewrite Hcur, Hlcd.
       assert (Hcases : (lc = 0 /\ blen body = 1) \/ (lc = 1 /\ blen body = 2) \/
                        (lc = 2 /\ blen body = 4) \/ (lc = 3 /\ blen body = 8)).
@@ -238,24 +258,21 @@ Proof.
         destruct (Z.eqb_spec (blen body) 2); [lia|].
         destruct (Z.eqb_spec (blen body) 4); [lia|].
         destruct (Z.eqb_spec (blen body) 8); [lia|]. congruence. }
-      rewrite (wrap_u16_small (m_id m)) by lia.
       assert (Hgoal : forall lenv, lenv = blen body ->
         dbind (DOk lenv s) (fun len p2 =>
           if m_id m =? pid then DOk (wrap_u16 len) (if lc =? 5 then p2 - 4 else p2)
-          else dbind (seek buf p2 len) (fun _ p3 =>
-               dbind (dec_align V2 buf 4 p3) (fun _ p4 => seek_to_pid2 V2 E buf f pid p4))) =
+          else dbind (seek c p2 len) (fun _ p3 =>
+               dbind (dec_align V2 c 4 p3) (fun _ p4 => seek_to_pid2 V2 E buf c f pid p4))) =
         (if m_id m =? pid
          then DOk (wrap_u16 (blen pad + 4 + blen body - (blen pad + 4))) (pos + (blen pad + 4))
-         else dbind (dec_align V2 buf 4 (pos + (blen pad + 4 + blen body)))
-                    (fun _ p4 => seek_to_pid2 V2 E buf f pid p4))).
+         else dbind (dec_align V2 c 4 (pos + (blen pad + 4 + blen body)))
+                    (fun _ p4 => seek_to_pid2 V2 E buf c f pid p4))).
       { intros lenv ->. cbn [dbind].
         replace (lc =? 5) with false by (symmetry; apply Z.eqb_neq; lia).
         replace (pos + (blen pad + 4)) with s by (unfold s; lia).
         replace (blen pad + 4 + blen body - (blen pad + 4)) with (blen body) by lia.
         destruct (m_id m =? pid); [reflexivity|].
-        assert (Hseek : seek buf s (blen body) = DOk tt (s + blen body)).
-        { rewrite Hbuf1. rewrite <- Hl1. apply seek_mid. lia. }
-        rewrite Hseek. cbn [dbind].
+        rewrite seek_ok by (unfold s; lia). cbn [dbind].
         replace (pos + (blen pad + 4 + blen body)) with (s + blen body) by (unfold s; lia).
         reflexivity. }
       rewrite len_sel by lia. apply Hgoal.
@@ -267,33 +284,37 @@ Qed.
 Definition whyp (E : endian) (ms : list (minfo * ty)) (d : dyn) : Prop :=
   nodup_z (ids ms) = true /\
   forall k v, lookup k d = Some v -> exists mt, In mt ms /\ m_id (fst mt) = k /\
-    rt_ok (ser_ty V2 E (snd mt) v) (fun buf => des_ty V2 E buf (snd mt)) v /\
-    shift4 (ser_ty V2 E (snd mt) v) /\ lc5_ty (snd mt) = false /\ 0 <= k < 65536 /\
+    rt_ok u32_max (msz (snd mt)) (ser_ty V2 E (snd mt) v) (fun buf c => des_ty V2 E buf (snd mt) c) v /\
+    shift4 (ser_ty V2 E (snd mt) v) /\ lc5_ty (snd mt) = false /\ 0 <= k < 268435456 /\
     (forall pos bs p, ser_ty V2 E (snd mt) v pos = Ok (bs, p) -> blen bs <= u32_max).
 
-Lemma des_u32_end : forall E buf pos, blen buf mod 4 = 0 -> 0 <= pos -> blen buf - pos < 4 ->
-  exists p, des_prim V2 E buf KU32 pos = DErr E_NED p.
+Lemma dec_align4_org0 : forall c x, c_org c = 0 ->
+  dec_align V2 c 4 x = seek c x (padlen x 4).
+Proof. intros c x H. unfold dec_align. rewrite H, Z.sub_0_r. reflexivity. Qed.
+
+Lemma des_u32_end : forall E buf c pos, c_org c = 0 -> c_lim c mod 4 = 0 -> 0 <= pos -> c_lim c - pos < 4 ->
+  exists p, des_prim V2 E buf c KU32 pos = DErr E_NED p.
 Proof.
-  intros E buf pos Hb Hpos Hlt. rewrite des_prim_unfold. unfold dec_align.
-  change (Z.min (sk_size KU32) 4) with 4. change (sk_size KU32) with 4.
+  intros E buf c pos Horg Hb Hpos Hlt. rewrite des_prim_unfold.
+  change (sk_size KU32) with 4. rewrite dec_align4_org0 by assumption.
   pose proof (padlen_range pos 4 ltac:(lia)) as Hr. pose proof (padlen_aligned pos 4 ltac:(lia)) as Ha.
-  destruct (seek_cases buf pos (padlen pos 4)) as [-> | ->]; cbn [dbind]; [eauto|].
-  unfold read_bytes. replace (pos + padlen pos 4 + 4 >? blen buf) with true; [cbn [dbind]; eauto|].
+  destruct (seek_cases c pos (padlen pos 4)) as [-> | ->]; cbn [dbind]; [eauto|].
+  unfold read_bytes. replace (pos + padlen pos 4 + 4 >? c_lim c) with true; [cbn [dbind]; eauto|].
   symmetry. rewrite Z.gtb_ltb. apply Z.ltb_lt. lia.
 Qed.
 
-Lemma des_u32_realign : forall E buf x, 0 <= x -> x + padlen x 4 <= blen buf ->
-  des_prim V2 E buf KU32 (x + padlen x 4) = des_prim V2 E buf KU32 x.
+Lemma des_u32_realign : forall E buf c x, c_org c = 0 -> 0 <= x -> x + padlen x 4 <= c_lim c ->
+  des_prim V2 E buf c KU32 (x + padlen x 4) = des_prim V2 E buf c KU32 x.
 Proof.
-  intros E buf x Hx Hle. rewrite !des_prim_unfold. unfold dec_align.
-  change (Z.min (sk_size KU32) 4) with 4.
+  intros E buf c x Horg Hx Hle. rewrite !des_prim_unfold.
+  change (sk_size KU32) with 4. rewrite !dec_align4_org0 by assumption.
   pose proof (padlen_aligned x 4 ltac:(lia)) as Ha.
   rewrite (padlen_zero (x + padlen x 4) 4) by lia.
   unfold seek. rewrite !gtb_false by lia. rewrite Z.add_0_r. reflexivity.
 Qed.
 
-Lemma seek_realign : forall E buf f pid x, 0 <= x -> x + padlen x 4 <= blen buf ->
-  seek_to_pid2 V2 E buf (S f) pid (x + padlen x 4) = seek_to_pid2 V2 E buf (S f) pid x.
+Lemma seek_realign : forall E buf c f pid x, c_org c = 0 -> 0 <= x -> x + padlen x 4 <= c_lim c ->
+  seek_to_pid2 V2 E buf c (S f) pid (x + padlen x 4) = seek_to_pid2 V2 E buf c (S f) pid x.
 Proof. intros. cbn [seek_to_pid2]. now rewrite des_u32_realign. Qed.
 
 Lemma align_within : forall x B, 0 <= x <= B -> B mod 4 = 0 -> x + padlen x 4 <= B.
@@ -305,20 +326,21 @@ Lemma seek_list : forall E ms d, whyp E ms d ->
   forall l pos, 0 <= pos -> (forall k, In k l -> lookup k d <> None) -> exists bs,
     ser_list (ser_mmember2 V2 E (cvS V2 E ms) d) l pos = Ok (bs, pos + blen bs) /\
     Z.of_nat (length l) <= blen bs /\
-    forall pre post, blen pre = pos -> blen (pre ++ bs ++ post) mod 4 = 0 -> blen post < 4 ->
-    forall fuel pid, (length l < fuel)%nat -> 0 <= pid < 65536 ->
-      (In pid l -> exists w p mt v p', seek_to_pid2 V2 E (pre ++ bs ++ post) fuel pid pos = DOk w p /\
+    forall pre post c, c_org c = 0 -> blen pre = pos -> c_lim c mod 4 = 0 ->
+      pos + blen bs <= c_lim c -> c_lim c - (pos + blen bs) < 4 ->
+    forall fuel pid, (length l < fuel)%nat -> 0 <= pid < 268435456 ->
+      (In pid l -> exists w p mt v p', seek_to_pid2 V2 E (pre ++ bs ++ post) c fuel pid pos = DOk w p /\
                      In mt ms /\ m_id (fst mt) = pid /\ lookup pid d = Some v /\
-                     des_ty V2 E (pre ++ bs ++ post) (snd mt) p = DOk v p') /\
-      (~ In pid l -> exists p, seek_to_pid2 V2 E (pre ++ bs ++ post) fuel pid pos = DErr E_NED p).
+                     des_ty V2 E (pre ++ bs ++ post) (snd mt) c p = DOk v p') /\
+      (~ In pid l -> exists p, seek_to_pid2 V2 E (pre ++ bs ++ post) c fuel pid pos = DErr E_NED p).
 Proof.
   intros E ms d [Hnd Hw] l. induction l as [|id r IH]; intros pos Hpos Hl.
   - exists []. split; [cbn [ser_list]; f_equal; f_equal; cbn; lia|]. split; [cbn; lia|].
-    intros pre post Hpre Hmod Hpost fuel pid Hfuel Hpid. cbn [app] in *.
+    intros pre post c Horg Hpre Hmod Hle Hpost fuel pid Hfuel Hpid. cbn [app] in *.
+    rewrite blen_nil in *.
     split; [intros []|]. intros _. destruct fuel as [|f]; [cbn in Hfuel; lia|].
     cbn [seek_to_pid2].
-    destruct (des_u32_end E (pre ++ post) pos Hmod Hpos
-                ltac:(rewrite blen_app; lia)) as [p ->]. cbn [dbind]. eauto.
+    destruct (des_u32_end E (pre ++ post) c pos Horg Hmod Hpos ltac:(lia)) as [p ->]. cbn [dbind]. eauto.
   - destruct (lookup id d) as [v|] eqn:Hv; [|exfalso; apply (Hl id); [now left|assumption]].
     destruct (Hw id v Hv) as [mt [Hin [Hid [Hrt [Hsh [Hlc5 [Hrange Hsz]]]]]]].
     rewrite <- Hid in Hv, Hrange.
@@ -327,19 +349,18 @@ Proof.
     rewrite Hid in E1.
     pose proof (blen_nonneg b1).
     destruct (IH (pos + blen b1) ltac:(lia) ltac:(intros k Hk; apply Hl; now right)) as [b2 [E2 [Hlen2 D2]]].
+    pose proof (blen_nonneg b2).
     exists (b1 ++ b2). split; [|split].
     + cbn [ser_list]. rewrite E1. cbn [bind]. rewrite E2. cbn [bind]. rewrite blen_app.
       f_equal. f_equal. lia.
     + rewrite blen_app. cbn [length]. lia.
-    + intros pre post Hpre Hmod Hpost fuel pid Hfuel Hpid.
+    + rewrite blen_app. intros pre post c Horg Hpre Hmod Hle Hpost fuel pid Hfuel Hpid.
       destruct fuel as [|f]; [cbn in Hfuel; lia|]. cbn [length] in Hfuel.
       assert (Hb1 : pre ++ (b1 ++ b2) ++ post = pre ++ b1 ++ (b2 ++ post)) by now rewrite <- !app_assoc.
       assert (Hb2 : pre ++ (b1 ++ b2) ++ post = (pre ++ b1) ++ b2 ++ post) by now rewrite <- !app_assoc.
-      destruct (D1 pre (b2 ++ post) Hpre) as [Dv Ds]. rewrite <- Hb1 in Dv, Ds.
+      destruct (D1 pre (b2 ++ post) c Horg Hpre ltac:(lia)) as [Dv Ds]. rewrite <- Hb1 in Dv, Ds.
       specialize (Ds f pid Hpid). rewrite Hid in Ds.
       set (buf := pre ++ (b1 ++ b2) ++ post) in *.
-      assert (HB : pos + blen b1 <= blen buf).
-      { unfold buf. rewrite !blen_app. pose proof (blen_nonneg b2). pose proof (blen_nonneg post). lia. }
       destruct (Z.eqb_spec id pid) as [Heq | Hne].
       * (* found here *)
         split; [|intros Hn; exfalso; apply Hn; now left].
@@ -349,15 +370,15 @@ Proof.
         split; [rewrite <- Hid; exact Hv|exact Dv].
       * (* skip this parameter *)
         assert (Hq : (id =? pid) = false) by (now apply Z.eqb_neq). rewrite ?Hq in Ds.
-        unfold dec_align in Ds. change (Z.min 4 4) with 4 in Ds.
+        rewrite dec_align4_org0 in Ds by assumption.
         unfold seek in Ds at 1.
         rewrite gtb_false in Ds by (apply align_within; [lia|exact Hmod]).
         cbn [dbind] in Ds.
         destruct f as [|f']; [lia|].
-        rewrite seek_realign in Ds by (first [lia | apply align_within; [lia|exact Hmod]]).
-        specialize (D2 (pre ++ b1) post ltac:(rewrite blen_app; lia)).
+        rewrite seek_realign in Ds by (first [assumption | lia | apply align_within; [lia|exact Hmod]]).
+        specialize (D2 (pre ++ b1) post c Horg ltac:(rewrite blen_app; lia)).
         rewrite <- Hb2 in D2. fold buf in D2.
-        specialize (D2 Hmod Hpost (S f') pid ltac:(lia) Hpid).
+        specialize (D2 Hmod ltac:(lia) ltac:(lia) (S f') pid ltac:(lia) Hpid).
         rewrite Ds. destruct D2 as [D2a D2b]. split.
         -- intros [Hc | Hc]; [congruence|]. exact (D2a Hc).
         -- intros Hn. apply D2b. intros Hc. apply Hn. now right.
@@ -381,11 +402,12 @@ Qed.
 Theorem mstruct_decodes : forall E ms1 ms2 d,
   whyp E ms2 d ->
   (forall mt1 mt2, In mt1 ms1 -> In mt2 ms2 -> m_id (fst mt1) = m_id (fst mt2) -> snd mt1 = snd mt2) ->
-  (forall mt1, In mt1 ms1 -> 0 <= m_id (fst mt1) < 65536) ->
+  (forall mt1, In mt1 ms1 -> 0 <= m_id (fst mt1) < 268435456) ->
   forall pos, 0 <= pos -> exists bs,
     ser_mstruct V2 E (cvS V2 E ms2) d pos = Ok (bs, pos + blen bs) /\
-    forall pre kz, blen pre = pos -> 0 <= kz < 4 -> blen (pre ++ bs ++ zeros kz) mod 4 = 0 ->
-      exists p', des_mstruct V2 E (pre ++ bs ++ zeros kz) (cvD V2 E (pre ++ bs ++ zeros kz) ms1) pos
+    forall pre kz c, c_org c = 0 -> blen pre = pos -> 0 <= kz < 4 ->
+      c_lim c = blen (pre ++ bs ++ zeros kz) -> c_lim c mod 4 = 0 ->
+      exists p', des_mstruct V2 E (pre ++ bs ++ zeros kz) (cvD V2 E (pre ++ bs ++ zeros kz) ms1) c pos
                  = DOk (ins ms1 d []) p'.
 Proof.
   intros E ms1 ms2 d HW Hty Hid1 pos Hpos.
@@ -403,12 +425,12 @@ Proof.
   pose proof (blen_nonneg bb) as Hbb.
   set (z := wrap_u32 (blen bb)).
   assert (Hz : 0 <= z <= u32_max) by (unfold z, wrap_u32, two32, u32_max; lia).
-  destruct (rt_u32 V2 E z Hz pos Hpos) as [hb [E2 D2]].
+  destruct (rt_u32 V2 E 8 z Hz pos Hpos) as [hb [E2 [_ D2]]].
   assert (Hhb : hb = pad ++ int_enc E 4 z) by (unfold ser_prim, ret in E2; inversion E2; reflexivity).
   subst hb.
   exists (pad ++ int_enc E 4 z ++ bb). split.
   - rewrite E1. cbn [bind]. f_equal. f_equal. rewrite !blen_app, int_enc_blen. unfold s. lia.
-  - intros pre kz Hpre Hkz Hmod.
+  - intros pre kz c Horg Hpre Hkz Hclim Hmod.
     set (buf := pre ++ (pad ++ int_enc E 4 z ++ bb) ++ zeros kz) in *.
     assert (Hbuf0 : buf = pre ++ (pad ++ int_enc E 4 z) ++ (bb ++ zeros kz))
       by (unfold buf; now rewrite <- !app_assoc).
@@ -416,24 +438,26 @@ Proof.
       by (unfold buf; now rewrite <- !app_assoc).
     assert (Hl1 : blen (pre ++ pad ++ int_enc E 4 z) = s)
       by (rewrite !blen_app, int_enc_blen; unfold s; lia).
-    assert (HB : s <= blen buf).
-    { rewrite Hbuf1, blen_app, Hl1. pose proof (blen_nonneg (bb ++ zeros kz)). lia. }
-    assert (Hdh : des_prim V2 E buf KU32 pos = DOk z s).
-    { rewrite Hbuf0. rewrite (D2 pre _ Hpre). rewrite blen_app, int_enc_blen. f_equal. unfold s. lia. }
+    assert (Hblen : blen buf = s + blen bb + kz).
+    { rewrite Hbuf1, blen_app, Hl1, blen_app, blen_zeros by lia. lia. }
+    assert (Hdh : des_prim V2 E buf c KU32 pos = DOk z s).
+    { rewrite Hbuf0. rewrite blen_app, int_enc_blen in D2.
+      specialize (D2 ltac:(lia) pre (bb ++ zeros kz) c ltac:(lia) ltac:(lia)).
+      rewrite Horg in D2. cbn [Z.add] in D2. rewrite D2. f_equal. unfold s. lia. }
     unfold des_mstruct. rewrite Hdh. cbn [dbind].
-    specialize (D1 (pre ++ pad ++ int_enc E 4 z) (zeros kz) Hl1).
-    rewrite <- Hbuf1 in D1. specialize (D1 Hmod ltac:(rewrite blen_zeros; lia)).
+    specialize (D1 (pre ++ pad ++ int_enc E 4 z) (zeros kz) c Horg Hl1 Hmod ltac:(lia) ltac:(lia)).
+    rewrite <- Hbuf1 in D1.
     assert (Hfuel : (length (keys d) < fuel0 buf)%nat).
     { unfold fuel0. assert (Z.of_nat (length (keys d)) <= Z.of_nat (length buf)); [|lia].
-      fold (blen buf). rewrite Hbuf1, blen_app, Hl1, blen_app. pose proof (blen_nonneg (zeros kz)). lia. }
+      fold (blen buf). lia. }
     assert (Hmem : forall l acc, incl l ms1 ->
-              des_members V2 E buf (cvD V2 E buf l) acc s = DOk (ins l d acc) s).
+              des_members V2 E buf (cvD V2 E buf l) acc c s = DOk (ins l d acc) s).
     { induction l as [|mt1 r IH]; intros acc Hincl; [reflexivity|].
       cbn [cvD map des_members]. unfold des_mmember, des_mmember2. cbn [fst snd].
-      unfold dec_align. change (Z.min 4 4) with 4. rewrite (padlen_zero s 4) by lia.
+      rewrite dec_align4_org0 by assumption. rewrite (padlen_zero s 4) by lia.
       unfold seek at 1. rewrite gtb_false by lia. cbn [dbind]. rewrite Z.add_0_r.
       assert (Hin1 : In mt1 ms1) by (apply Hincl; now left).
-      pose proof (Hid1 mt1 Hin1) as Hr1. rewrite wrap_u16_small by lia.
+      pose proof (Hid1 mt1 Hin1) as Hr1. rewrite land_id28 by lia.
       destruct (D1 (fuel0 buf) (m_id (fst mt1)) Hfuel Hr1) as [Dfound Dnot].
       assert (Hincl' : incl r ms1) by (intros x Hx; apply Hincl; now right).
       unfold ins. cbn [fold_left].
